@@ -190,6 +190,25 @@ pub fn c15() -> i32 {
             }
         }
     }
+    // round trips below one millisecond (the measured ping is then 0 ms, a legitimate value)
+    for fps in [1000usize, 2000, 4000] {
+        for lead in [0i32, 4, -5] {
+            for lat in [0, 1] {
+                let mut s = base_scn("c15-submillisecond", "1+1", 12, 0, false, Pred::RepeatLast, Program::Changing, lat);
+                s.fps = fps;
+                s.round_us = 1_000_000 / fps as u64;
+                let follower = if lead >= 0 { 1 } else { 0 };
+                for i in 0..lead.abs() {
+                    s.scripted_stalls.push((follower, 2 + i));
+                }
+                s.name = format!("{} fps={fps} lead={lead} pattern=0", s.name);
+                s.horizon = 0;
+                s.probe = 3 * fps as i32;
+                s.checks = CK_C02 | CK_STATS;
+                scns.push(s);
+            }
+        }
+    }
     // leads that change: the leader gives frames back (stalls) some time after warm-up, or a
     // loss burst hits the link - the gap between current and confirmed frame shrinks or grows
     // between two recommendations
